@@ -786,6 +786,12 @@ class Interp:
                 return pred_not(("cmp", "<", ("lin", d), ("c", 0)))
         if op in ("Eq", "Is") and desc(a) == desc(b) and not isinstance(a, Sym):
             return PTRUE
+        # inclusion between sets written with comparison operators
+        if op in ("LtE", "GtE", "Lt", "Gt") and isinstance(a, ElemV) and isinstance(b, ElemV) and a.role in ("set", "coll") and b.role in ("set", "coll"):
+            x, y = (a.var, b.var) if op in ("LtE", "Lt") else (b.var, a.var)
+            if op in ("LtE", "GtE"):
+                return ("subset", x, y)
+            return ("and", (("subset", x, y), ("not", ("subset", y, x))))
         sym = {"Eq": "==", "Is": "is", "Lt": "<", "LtE": "<=", "Gt": ">", "GtE": ">="}[op]
         da, db = desc(a), desc(b)
         if sym in ("==", "is") and repr(da) > repr(db):
